@@ -277,7 +277,7 @@ def main():
             "enable": "harness/.cargo/config.toml sets rustflags --cfg nun_verif; the harness crate has a "
                       "path dependency on /repo, so every check rebuilds /repo's working tree with hooks on",
             "baseline_off_cmd": "cd /repo && cargo test --workspace --no-fail-fast --offline",
-            "source_commits": ["a1f9077", "df1d841"],
+            "source_commits": ["a1f9077", "df1d841", "6ce3f5a", "6738923"],
             "add_only": True,
         },
         "engines": [{
